@@ -172,4 +172,4 @@ ASSUME = ['emptiness is decided with a fresh tokenizer of the same kind; non-emp
 if __name__ == '__main__':
     tier = sys.argv[1] if len(sys.argv) > 1 else 'quick'
     sys.exit(run_check('C09', tier, layers(tier), assumptions=ASSUME,
-                       cap_s=300 if tier == 'quick' else 6000))
+                       cap_s=900 if tier == 'quick' else 7200))
